@@ -335,6 +335,104 @@ validated on its own (`dec` as in `receive`); a pair that does not decode or has
 def receiveState {V R : Type} [MergeVal V] (dec : R → Option (Msg V)) (cfg : Cfg) (now : Int) (nd : Node V) (raws : List R) : Node V :=
   raws.foldl (receive dec cfg now) nd
 
+/-! ## wire format of the two receive paths
+
+`LocalState` / `MergeRemoteState`: the stream is `[4-byte big-endian length][marshalled KeyValuePair]`…;
+`NotifyMsg`: one marshalled `KeyValuePair`. The protobuf unmarshaller (`unm`) and the codec registry
+with the value decoders (`codecs`) are parameters; the framing, the validation order and the control
+flow (break on a framing / unmarshal error, skip on empty key / unknown codec / undecodable value)
+are modelled. -/
+
+/-- a `KeyValuePair` as unmarshalled: the value is still encoded -/
+structure RawPair where
+  key : String
+  codec : String
+  deleted : Bool := false
+  updateTime : Int := 0
+  value : Common.Bytes := []
+
+def be32 (a b c d : UInt8) : Nat := ((a.toNat * 256 + b.toNat) * 256 + c.toNat) * 256 + d.toNat
+
+/-- reader state of the framing loop: inside the 4-byte header, or inside a body of known length -/
+inductive FState
+  | hdr (got : List UInt8)
+  | body (need : Nat) (acc : Common.Bytes)
+  deriving DecidableEq, Repr
+
+/-- one more byte: possibly completes a frame -/
+def feed : FState → UInt8 → FState × Option Common.Bytes
+  | .hdr [a, b, c], d =>
+    let n := be32 a b c d
+    if n = 0 then (.hdr [], some []) else (.body n [], none)
+  | .hdr got, x => (.hdr (got ++ [x]), none)
+  | .body need acc, x =>
+    if acc.length + 1 = need then (.hdr [], some (acc ++ [x])) else (.body need (acc ++ [x]), none)
+
+/-- the complete frames of a byte stream, left to right, and the reader state at the end -/
+def scan : FState → Common.Bytes → List Common.Bytes × FState
+  | st, [] => ([], st)
+  | st, x :: xs =>
+    let r := scan (feed st x).1 xs
+    (match (feed st x).2 with | some f => f :: r.1 | none => r.1, r.2)
+
+/-- frames `MergeRemoteState` cuts out of `data`; `clean` = the data ends exactly at a frame boundary
+(otherwise the loop ends with "not enough data left") -/
+def framesOf (data : Common.Bytes) : List Common.Bytes × Bool :=
+  let r := scan (.hdr []) data
+  (r.1, r.2 == .hdr [])
+
+/-- `snappy.Encode(nil, []byte{})`: what `mergeBytesValueForKey` substitutes for an empty value -/
+def emptySnappy : Common.Bytes := [0]
+
+/-- validation and decoding of one unmarshalled pair: non-empty key, registered codec, decodable value -/
+def decodePair {V : Type} (codecs : String → Option (Common.Bytes → Option V)) (p : RawPair) : Option (Msg V) :=
+  if p.key.isEmpty then none else
+  match codecs p.codec with
+  | none => none
+  | some dec =>
+    match dec (if p.value.isEmpty then emptySnappy else p.value) with
+    | none => none
+    | some v => some { key := p.key, val := v, deleted := p.deleted, updateTime := p.updateTime }
+
+/-- `NotifyMsg(bytes)` -/
+def notifyBytes {V : Type} [MergeVal V] (unm : Common.Bytes → Option RawPair) (codecs : String → Option (Common.Bytes → Option V))
+    (cfg : Cfg) (now : Int) (nd : Node V) (data : Common.Bytes) : Node V :=
+  match unm data with
+  | none => nd
+  | some p =>
+    match decodePair codecs p with
+    | none => nd
+    | some m => deliver cfg now nd m
+
+/-- the loop of `MergeRemoteState` over the frames: an unmarshal error ends the loop; an invalid pair is skipped -/
+def mergeFrames {V : Type} [MergeVal V] (unm : Common.Bytes → Option RawPair) (codecs : String → Option (Common.Bytes → Option V))
+    (cfg : Cfg) (now : Int) : Node V → List Common.Bytes → Node V
+  | nd, [] => nd
+  | nd, f :: fs =>
+    match unm f with
+    | none => nd
+    | some p =>
+      match decodePair codecs p with
+      | none => mergeFrames unm codecs cfg now nd fs
+      | some m => mergeFrames unm codecs cfg now (deliver cfg now nd m) fs
+
+/-- `MergeRemoteState(bytes)` -/
+def mergeRemoteBytes {V : Type} [MergeVal V] (unm : Common.Bytes → Option RawPair) (codecs : String → Option (Common.Bytes → Option V))
+    (cfg : Cfg) (now : Int) (nd : Node V) (data : Common.Bytes) : Node V :=
+  mergeFrames unm codecs cfg now nd (framesOf data).1
+
+/-- the decodable pairs of a frame list, in order, up to the first frame that does not unmarshal -/
+def stateMsgs {V : Type} (unm : Common.Bytes → Option RawPair) (codecs : String → Option (Common.Bytes → Option V)) :
+    List Common.Bytes → List (Msg V)
+  | [] => []
+  | f :: fs =>
+    match unm f with
+    | none => []
+    | some p =>
+      match decodePair codecs p with
+      | none => stateMsgs unm codecs fs
+      | some m => m :: stateMsgs unm codecs fs
+
 /-! ## cluster: nodes + messages in flight + one global clock (seconds) -/
 
 structure Cluster (V : Type) where
